@@ -164,10 +164,23 @@ func gFirst(vs []interface{}) (interface{}, error) {
 	return vs[0], nil
 }
 
+// re-entrant functions: a user function may itself use the library while it runs
+var reDoc = map[string]interface{}{"k": []interface{}{100.0, 200.0, 300.0}, "m": map[string]interface{}{"x": 1.0, "y": 2.0}}
+
+func gReenter(vs []interface{}) (interface{}, error) {
+	jsonpath.Retrieve(`$..*`, reDoc)
+	jsonpath.Retrieve(`$.k[?(@ > 100)]`, reDoc)
+	return append([]interface{}{}, vs...), nil
+}
+func fReenter(v interface{}) (interface{}, error) {
+	jsonpath.Retrieve(`$.m.*`, reDoc)
+	return v, nil
+}
+
 // FilterFuncs and AggregateFuncs: base behaviours; names with a digit suffix are aliases
 // (f, f1, f2, f3 ...) so that every occurrence in a path can be told apart in call logs.
-var baseFilter = map[string]func(interface{}) (interface{}, error){"f": fDouble, "id": fID, "e": fErr}
-var baseAggregate = map[string]func([]interface{}) (interface{}, error){"g": gList, "cnt": gCnt, "eg": gErr, "first": gFirst}
+var baseFilter = map[string]func(interface{}) (interface{}, error){"f": fDouble, "id": fID, "e": fErr, "fre": fReenter}
+var baseAggregate = map[string]func([]interface{}) (interface{}, error){"g": gList, "cnt": gCnt, "eg": gErr, "first": gFirst, "gre": gReenter}
 
 // Env is a matched pair: a model function table and a library Config, both recording.
 type Env struct {
